@@ -154,9 +154,18 @@ def _migrate_csv_to_rules(csv_file: str, config_dir: str, backup: bool = True,
         if os.path.exists(settings_path):
             settings = load_settings(config_dir, settings_file)
             if not (isinstance(settings, dict) and settings.get('merchants_file')):
-                with open(settings_path, 'a', encoding='utf-8') as f:
-                    f.write('\n# Merchant rules file (migrated from CSV)\n')
-                    f.write('merchants_file: config/merchants.rules\n')
+                # Written to a temporary file that then replaces the settings file in one step:
+                # a run interrupted while appending in place could leave a torn line
+                # ("merchants_file: config/merch"), and load_config does not fall back to the CSV
+                # when merchants_file names a file that does not exist
+                with open(settings_path, 'r', encoding='utf-8') as f:
+                    settings_text = f.read()
+                tmp_path = settings_path + '.tmp'
+                with open(tmp_path, 'w', encoding='utf-8') as f:
+                    f.write(settings_text
+                            + '\n# Merchant rules file (migrated from CSV)\n'
+                            + 'merchants_file: config/merchants.rules\n')
+                os.replace(tmp_path, settings_path)
                 print(f"  {C.GREEN}✓{C.RESET} Updated: config/{settings_file}")
                 print(f"      Added merchants_file: config/merchants.rules")
 
